@@ -30,6 +30,7 @@ void export_and_reimport(const P &, const GenCtx &, const std::string &, const c
 // (a)+(b) one parameter structure: import, typed access, unknown keys, export, re-import
 template <class P, bool WithExport = true>
 void test_struct(Tape &t, Ctx &c, const char *label) {
+    require_layout_described<P>(label);
     Arena arena; ptree in;
     GenCtx g(t, in, arena);
     int dens = static_cast<int>(t.u(0, 3)); // how many fields get a value: ~1/3, ~2/3, all, 1/6
